@@ -554,13 +554,17 @@ class Rng(random.Random):
 # Batch running of script-driven executables, diffing, shrinking
 # ---------------------------------------------------------------------------
 
-def run_cases(exe, cases, env=None, timeout=300, wrapper=None):
+CRASH_BUDGET_HIT = []     # (exe, first skipped case, number skipped) per run_cases call that gave up
+
+
+def run_cases(exe, cases, env=None, timeout=300, wrapper=None, max_crashes=8):
     """Feed `cases` (list of script texts, without the marker line) to a script-driven executable that
     echoes '# case <i>' marker lines and starts fresh state at each.  Survives crashes: the case
     during which the process died is reported with crash=(rc, tail of stderr) and the remaining
     cases are run in a new process.  Returns list of (lines, crash) per case."""
     results = [None] * len(cases)
     start = 0
+    ncrash = 0
     e = dict(IMPL_ENV)
     if env:
         e.update(env)
@@ -591,6 +595,17 @@ def run_cases(exe, cases, env=None, timeout=300, wrapper=None):
             if results[i] is None:
                 results[i] = ([], None)
         start = last + 1
+        if rc in (124, -14, 142):      # timed out, or killed by the harness' own alarm(): a HANG (an abort is cheap)
+            ncrash += 1
+            if rc == 124:
+                timeout = min(timeout, 60)   # the harness has no alarm of its own: do not pay the full timeout again
+        if ncrash >= max_crashes and start < len(cases):
+            # a tree on which the harness keeps hanging (each hang costs its alarm time): the dozen hangs found are
+            # reported, the remaining cases are not run (empty output, no crash) so that the check ends in minutes
+            CRASH_BUDGET_HIT.append((os.path.basename(exe), start, len(cases) - start))
+            for i in range(start, len(cases)):
+                results[i] = ([], None)
+            break
     return results
 
 
